@@ -108,6 +108,19 @@ def decomposition_protocols():
         out.append(Proto(f"PCovR[{solver}]", "skmatter.decomposition.PCovR", {"mixing": scalar("alpha", 0, 1, True, True), "space": "feature", "n_components": integer("K"), "svd_solver": solver}, [("fit", (X, Y), {})], assume=assume_default, order=[("K", "<", "N"), ("K", "<", "M")]))
     X, Y = XY(y1d=True)
     out.append(Proto("PCovR[1-D y]", "skmatter.decomposition.PCovR", {"mixing": scalar("alpha", 0, 1, True, True), "space": "feature", "n_components": integer("K"), "svd_solver": "full"}, [("fit", (X, Y), {}), ("predict", (arr("Xv", "V", "M"),), {})], assume=assume_default, order=[("K", "<=", "N"), ("K", "<=", "M")]))
+    # a single target given as a vector, crossed with the route and the regressor kind
+    for space in ("feature", "sample"):
+        for reg in ("default", "precomputed", "precomputedW"):
+            if (space, reg) == ("feature", "default"):
+                continue  # the protocol above
+            X, Y = XY(y1d=True)
+            ctor = {"mixing": scalar("alpha", 0, 1, True, True), "space": space, "n_components": integer("K"), "svd_solver": "full"}
+            fit_kw = {}
+            if reg.startswith("precomputed"):
+                ctor["regressor"] = "precomputed"
+                if reg.endswith("W"):
+                    fit_kw = {"W": arr("W", "M")}
+            out.append(Proto(f"PCovR[1-D y,{space},{reg}]", "skmatter.decomposition.PCovR", ctor, [("fit", (X, Y), fit_kw), ("predict", (arr("Xv", "V", "M"),), {})], assume=assume_default, order=[("K", "<=", "N"), ("K", "<=", "M")]))
     for center in (False, True):
         for reg in ("default", "precomputed"):
             X, Y = XY()
